@@ -293,6 +293,10 @@ def run(w: World, rep: Report):
     rep.check('C08.T', 'classes.Stack.put|bytes-only', ok, line=sp.node.lineno, file='tapescript/classes.py',
               why='' if ok else 'Stack.put no longer rejects non-bytes items before storing them')
 
+    from .report import depend
+    depend(rep, w, 'rules_c19', ('C19.R3', 'C19.R4'), 'C08.TD19',
+           'the embedder\'s own dictionaries (cache_vals and the shared default) are only read or copied: no run adds a '
+           'str-keyed entry such as the default timestamp to them (C19.R3/R4 re-evaluated)', floor=20)
     # R4: the accessor of the interpreter-owned values looks them up under the decoded (str) name only.  If it also
     # tries the raw bytes key, a script that wrote b'timestamp' / b'sigfield1' answers for the protected entry.
     rep.rule('C08.R4', 'OP_GET_VALUE consults the cache only under the str it decoded from its operand: no lookup or '
